@@ -123,7 +123,9 @@ def run(cfg, H):
     k = cfg['kind']
     m, n = cfg['shape']
     dx = H.frac(1, 4)
-    wvl = H.frac(6328, 10000)
+    # not the writers' default wavelength (0.6328) for the Interferogram pair and for odd-sized maps
+    wvl = H.frac(1064, 1000) if (k == 'ifg' or (m * n) % 2) else H.frac(6328, 10000)
+    wvl_f = 1.064 if (k == 'ifg' or (m * n) % 2) else 0.6328
     ph, nanset, amp = build(H, cfg)
     step = wvl / 1000000 / 32768 * 1000000000        # nm per count (phase_res 1 -> 32768 counts per wave)
     if k in ('roundtrip', 'ifg'):
@@ -134,7 +136,7 @@ def run(cfg, H):
             got = res['phase']
             meta = res['meta']
             H.holds('lateral resolution survives (float32 header field)', abs(float(meta['lateral_resolution']) * 1000 - 0.25) < 1e-6)
-            H.holds('wavelength survives (float32 header field)', abs(float(meta['wavelength']) * 1e6 - 0.6328) < 1e-6)
+            H.holds('wavelength survives (float32 header field)', abs(float(meta['wavelength']) * 1e6 - wvl_f) < 1e-6)
         else:
             I = H.mod('prysm.interferogram')
             ifg = I.Interferogram(ph, dx=dx, wavelength=wvl)
@@ -142,7 +144,7 @@ def run(cfg, H):
             back = I.Interferogram.from_zygo_dat(f)
             got = back.data
             H.holds('Interferogram dx survives the file', abs(float(back.dx) - 0.25) < 1e-5)
-            H.holds('Interferogram wavelength survives the file', abs(float(back.wavelength) - 0.6328) < 1e-5)
+            H.holds('Interferogram wavelength survives the file', abs(float(back.wavelength) - wvl_f) < 1e-5)
         _same_map(H, got, ph, nanset, (m, n), step)
     elif k == 'trunc':
         f = H.memfile()
